@@ -93,6 +93,468 @@ def register_write(ix):
               "context.output.write is False is not written"))
 
 
+def sp_path_isabs(ip, st, pos, kws):
+    """path_isabs(p): os.path.isabs(p)  (posix: p starts with '/')"""
+    from pyvc.lib import key_startswith, str_operand
+    return Bool(key_startswith(ip, ip.key_term(str_operand(ip, st, pos[0], "path_isabs")), ip.reg.key("/")))
+
+
+def sp_path_join(ip, st, pos, kws):
+    """path_join(a, b, ...): os.path.join(a, b, ...)"""
+    from pyvc.lib import path_join_term, str_operand
+    return Opaque(path_join_term(ip, [ip.key_term(str_operand(ip, st, p, "path_join")) for p in pos]))
+
+
+OUT_KEYS = ("dirname", "filename", "fileext", "filetype")
+# what Write assumes about context.output of the values it writes (stated over the dictionary `o` = context.output)
+def out_typing(o):
+    return ["'%s' in %s implies is_string(%s['%s'])" % (k, o, o, k) for k in OUT_KEYS] + \
+           ["'%s' in %s implies not path_isabs(%s['%s'])" % (k, o, o, k) for k in ("dirname", "filename")]
+
+
+def register_make_filename_of_write(ix):
+    ix.spec_names["path_isabs"] = sp_path_isabs
+    ix.spec_names["path_join"] = sp_path_join
+    EXT, NAME, DIR, PATH = "result[2]", "result[1]", "result[0]", "result[3]"
+    replace(ix, Contract(
+        WR, "Write._make_filename", props=["C19"], ghost={"paths": True},
+        params={"self": "Self[Write]", "outputc": "Dict"}, result="Tuple[Val,Val,Val,Str]",
+        requires=["isdict(outputc)", "not path_isabs(self._output_filename)"] + out_typing("outputc"),
+        # docstring of Write.run: "If context.output.filename is present but empty, LenaRuntimeError is raised"
+        raises={"LenaRuntimeError": "'filename' in outputc and not outputc['filename']"},
+        raises_frame="pure",
+        ensures=[
+            # "If fileext is missing, then filetype is used; if it is also absent, the default file extension is txt"
+            "'fileext' in outputc implies %s == outputc['fileext']" % EXT,
+            "'fileext' not in outputc and 'filetype' in outputc implies %s == outputc['filetype']" % EXT,
+            "'fileext' not in outputc and 'filetype' not in outputc implies %s == 'txt'" % EXT,
+            # "If filename is missing, Write's default filename is used"
+            "'filename' in outputc implies %s == outputc['filename']" % NAME,
+            "'filename' not in outputc implies %s == self._output_filename" % NAME,
+            "'dirname' in outputc implies %s == outputc['dirname']" % DIR,
+            "'dirname' not in outputc implies %s == ''" % DIR,
+            # "filepath has the form self.output_directory/dirname/filename.fileext"
+            "%s implies %s == path_join(self.output_directory, %s, as_str(%s) + '.' + as_str(%s))" % (EXT, PATH, DIR, NAME, EXT),
+            "not %s implies %s == path_join(self.output_directory, %s, %s)" % (EXT, PATH, DIR, NAME),
+            "is_string(%s) and is_string(%s) and is_string(%s)" % (DIR, NAME, EXT)],
+        modifies=[],
+        notes="replaces the assumed contract of C19.py.  requires: the output keys are strings and the names are relative "
+              "(docstring: dirname is always relative to self.output_directory; an absolute name draws a RuntimeWarning)"))
+    # FINDING (not part of any check: props=[]): without the precondition "names are relative" the docstring's exception
+    # clause (LenaRuntimeError for an empty filename, nothing else) FAILS: the `assert not os.path.isabs(path)` of
+    # normalize_path raises AssertionError for a name that starts with two slashes (dirname "//x").
+    ix.add(Contract(
+        WR, "Write._make_filename", qualkey="Write._make_filename#any-names", name="Write._make_filename[names not known to be relative]",
+        props=[], ghost={"paths": True},
+        params={"self": "Self[Write]", "outputc": "Dict"}, result="Tuple[Val,Val,Val,Str]",
+        requires=["isdict(outputc)"] + out_typing("outputc")[:len(OUT_KEYS)],
+        raises={"LenaRuntimeError": "'filename' in outputc and not outputc['filename']"},
+        notes="fails (sat) at the assert of normalize_path: kept as a record of the finding, see the final report"))
+    # the caller's side: Write.run (contract in C19.py) must establish these preconditions for every value it writes:
+    # they become part of its well-formedness assumption on contexts / its precondition on the element
+    wr = ix.by_key.get((WR, "Write.run"))
+    if wr is not None:
+        wf = list(wr.ghost.get("ctx_wf", []))
+        for cl in out_typing("c['output']"):
+            cl = "'output' in c implies " + cl          # (`implies` is right associative)
+            if cl not in wf:
+                wf.append(cl)
+        wr.ghost["ctx_wf"] = wf
+        if "not path_isabs(self._output_filename)" not in wr.requires:
+            wr.requires.append("not path_isabs(self._output_filename)")
+
+
+# ------------------------------------------------------------------------------------------------------- MakeFilename
+MF = "lena/output/make_filename.py"
+MF_KEYS = ("prefix", "suffix", "filename", "dirname", "fileext")       # the order in which __init__ builds `_methods`
+MF_WF = ["not ('output' in c) or isdict(c['output'])"] + \
+        ["'output' in c implies '%s' in c['output'] implies is_string(c['output']['%s'])" % (k, k) for k in ("prefix", "suffix")]
+
+
+def mf_configs():
+    """the argument combinations __init__ accepts: at least one of the five, filename excludes prefix and suffix"""
+    out = []
+    for m in range(1, 32):
+        sel = tuple(k for j, k in enumerate(MF_KEYS) if m & (1 << j))
+        if "filename" in sel and ("prefix" in sel or "suffix" in sel):
+            continue
+        out.append(sel)
+    return out
+
+
+def mf_class(sel, static=False):
+    return "MakeFilename%s_%s" % ("C" if static else "", "_".join(sel))
+
+
+def _fmt_term(ip, name, args, sort):
+    f = ip.reg.ufun(name, [a.sort for a in args], sort)
+    return T("(%s %s)" % (f, " ".join(a.s for a in args)), sort)
+
+
+def sp_fmt_missing(ip, st, pos, kws):
+    """fmt_missing(f, d): the context d lacks a key the format string f needs (the formatter raises LenaKeyError)"""
+    return Bool(_fmt_term(ip, "fmt_missing", [ip.key_term(pos[0]), _val(ip, st, pos[1])], "Bool"))
+
+
+def sp_fmt_apply(ip, st, pos, kws):
+    """fmt_apply(f, d): the string the formatter of f makes from the context d"""
+    return Opaque(_fmt_term(ip, "fmt_apply", [ip.key_term(pos[0]), _val(ip, st, pos[1])], "Key"))
+
+
+def sp_fmt_malformed(ip, st, pos, kws):
+    """fmt_malformed(f): format_context(f) refuses the string f (unbalanced or single braces)"""
+    return Bool(_fmt_term(ip, "fmt_malformed", [ip.key_term(pos[0])], "Bool"))
+
+
+def _mf_walk(ip, st, self_ref, c0):
+    """the docstring of MakeFilename.__call__ as a function: (final context, modified?) from the element's configuration
+    (read from the heap object) and the context c0 the value arrives with.  Every step sees the context as the steps
+    before it left it."""
+    from pyvc.dicts import scalar, key_as_val, val_as_key_term, string_embedding
+    from pyvc.sym import ObjCell, PyListCell, Tup
+    reg = ip.reg
+    string_embedding(ip)
+    upd = ip.contracts.spec_names["upd_spec"]
+    cell = st.heap[self_ref.cid]
+    ow = cell.fields["_overwrite"].t
+    static = cell.fields.get("_context")
+    sc = _val(ip, st, static) if static is not None else None
+    ko = reg.key("output")
+    c, modified = c0, T("false", "Bool")
+
+    def out_get(c, k):          # context.output.<k> as an optional value (contexts are well formed: output is a dictionary)
+        return T("(ite (vhas %s %s) (select (dm (vget %s %s)) %s) none)" % (c.s, ko.s, c.s, ko.s, reg.key(k).s), "Opt")
+
+    def present(o):
+        return NOT(EQ(o, T("none", "Opt")))
+
+    def the(o):
+        return T("(the %s)" % o.s, "Val")
+
+    def truthy(v):
+        return T("(vtruthy %s)" % v.s, "Bool")
+
+    def cat(a, b):
+        return T("(%s %s %s)" % (reg.ufun("kcat", ["Key", "Key"], "Key"), a.s, b.s), "Key")
+
+    def nest(k, res):           # {"output": {k: res}}
+        return T("(D (store emptymap %s (some (D (store emptymap %s (some %s))))))" % (ko.s, reg.key(k).s, key_as_val(ip, res).s), "Val")
+
+    def drop(c, k):             # del context["output"][k]
+        return T("(D (store (dm %s) %s (some (D (store (dm (vget %s %s)) %s none)))))" % (c.s, ko.s, c.s, ko.s, reg.key(k).s), "Val")
+    methods = st.heap[cell.fields["_methods"].cid].items
+    for item in methods:
+        key, fm = item.items[0].s, st.heap[item.items[1].cid].fields["fmt"].t
+        if sc is not None:
+            # deepcopy(static context).update(context): the engine's term for d.update(o) (its axiom -- keys of o
+            # overwrite, the others stay -- is stated where the code performs the update)
+            full = T("(%s %s %s)" % (reg.ufun("dict_update", ["Val", "Val"], "Val"), sc.s, c.s), "Val")
+        else:
+            full = c
+        can = NOT(_fmt_term(ip, "fmt_missing", [fm, full], "Bool"))
+        res = _fmt_term(ip, "fmt_apply", [fm, full], "Key")
+        cur = out_get(c, key)
+        if key in ("filename", "dirname", "fileext"):
+            # "set context.output.{filename,dirname,fileext} (if they didn't exist)" / "this can be changed using overwrite"
+            applies = AND(OR(ow, NOT(present(cur))), can)
+        else:
+            # "prefix and suffix always update their existing keys in the context if they could be formatted"
+            applies = can
+        nc = c
+        if key == "filename":
+            # "output.prefix or output.suffix ... are prepended to or appended after the file name.  After that they are
+            # removed from context.output"
+            pre, suf = out_get(c, "prefix"), out_get(c, "suffix")
+            e = reg.key("")
+            pk = ITE(present(pre), val_as_key_term(ip, the(pre)), e)
+            sk = ITE(present(suf), val_as_key_term(ip, the(suf)), e)
+            res = cat(cat(pk, res), sk)
+            nc = ITE(AND(present(pre), truthy(the(pre))), drop(nc, "prefix"), nc)
+            nc = ITE(AND(present(suf), truthy(the(suf))), drop(nc, "suffix"), nc)
+        elif key in ("prefix", "suffix"):
+            # "prefix is prepended before the existing prefix, and suffix is appended after the existing suffix, unless
+            # overwrite is set to True: in that case they are overwritten"
+            joined = cat(res, val_as_key_term(ip, the(cur))) if key == "prefix" else cat(val_as_key_term(ip, the(cur)), res)
+            res = ITE(AND(present(cur), truthy(the(cur)), NOT(ow)), joined, res)
+        new = upd(ip, st, [Opaque(nc), Opaque(nest(key, res))], {}).t
+        c = ITE(applies, new, c)
+        modified = OR(modified, applies)
+    return c, modified
+
+
+def sp_mf_context(ip, st, pos, kws):
+    """mf_context(self, c0): the context MakeFilename.__call__ leaves for a value that arrived with context c0"""
+    return Opaque(_mf_walk(ip, st, pos[0], _val(ip, st, pos[1]))[0])
+
+
+def sp_mf_modified(ip, st, pos, kws):
+    """mf_modified(self, c0): some key could be set (else the value passes unchanged)"""
+    return Bool(_mf_walk(ip, st, pos[0], _val(ip, st, pos[1]))[1])
+
+
+def wrap_upd_spec(ix):
+    """upd_spec(d, o) of C07 adds the definition of the reference function `upd` at (d, o).  For a dictionary display
+    o = {k: {...}} the definition at the next level, upd(d[k] or {}, o[k]), is added as well (an instance of the same
+    definitional axiom, hence as sound as the first): code that updates a context twice needs it."""
+    import re
+    from contracts.C07 import upd_def, declare_upd
+    orig = ix.spec_names["upd_spec"]
+    if getattr(orig, "_nested", False):
+        return
+    pat = re.compile(r"^\(D \(store emptymap (\|[^|]*\|) \(some (\(D \(store emptymap .*\))\)\)\)$")
+
+    def sp(ip, st, pos, kws):
+        r = orig(ip, st, pos, kws)
+        if not ip.bound_stack:
+            d, o = _val(ip, st, pos[0]), _val(ip, st, pos[1])
+            m = pat.match(o.s)
+            if m:
+                k, sub = m.group(1), m.group(2)
+                dk = "(ite (isD (vget {d} {k})) (vget {d} {k}) (D emptymap))".format(d=d.s, k=k)
+                declare_upd(ip.reg)
+                ax = T(upd_def(dk, sub), "Bool")
+                if not any(x.s == ax.s for x in st.pc):
+                    st.pc.append(ax)
+        return r
+    sp._nested = True
+    ix.spec_names["upd_spec"] = sp
+
+
+def register_make_filename(ix):
+    wrap_upd_spec(ix)
+    for n, f in [("fmt_missing", sp_fmt_missing), ("fmt_apply", sp_fmt_apply), ("fmt_malformed", sp_fmt_malformed),
+                 ("mf_context", sp_mf_context), ("mf_modified", sp_mf_modified)]:
+        ix.spec_names[n] = f
+    # ---- lena.context.format_context, abstracted (library style, assumed): the formatter is an object that remembers its
+    # format string; calling it is a function of the string and the context, or LenaKeyError
+    ix.add_class(ClassSpec("Formatter", CF, fields={"fmt": "Str"}))
+    ix.add(Contract(CF, "format_context", props=[], trusted=True,
+                    params={"format_str": "Str"}, result="Inst[Formatter]",
+                    raises={"LenaValueError": "fmt_malformed(format_str)"},
+                    ensures=["result.fmt == format_str"],
+                    notes="assumed (docstring of format_context): returns a formatting function bound to the string; "
+                          "LenaValueError for unbalanced / single braces"))
+    ix.add(Contract(CF, "Formatter.__call__", props=[], trusted=True,
+                    params={"self": "Inst[Formatter]", "d": "Val"}, result="Str",
+                    raises={"LenaKeyError": "fmt_missing(self.fmt, d)"},
+                    ensures=["result == fmt_apply(self.fmt, d)"],
+                    notes="assumed (docstring of format_context): the function returned by format_context formats the "
+                          "context or raises LenaKeyError if the context lacks a needed key (other formatting errors of "
+                          "str.format are out of the model)"))
+    # ---- one class spec per accepted configuration (with and without a static context)
+    item = lambda k: "Tuple[Str['%s'],Inst[Formatter]]" % k
+    for sel in mf_configs():
+        n = len(sel)
+        mt = "PyList[%d,%s]" % (n, ",".join(item(k) for k in sel))
+        ix.add_class(ClassSpec(mf_class(sel), MF, fields={"_overwrite": "Bool", "_methods": mt}, alias_of="MakeFilename"))
+        ix.add_class(ClassSpec(mf_class(sel, True), MF, fields={"_overwrite": "Bool", "_methods": mt, "_context": "Dict"},
+                               invariant=["isdict(self._context)"], alias_of="MakeFilename"))
+    ix.add_class(ClassSpec("MakeFilename", MF, fields={}))
+    # ---- __init__
+    cases = []
+    for m in range(32):
+        given = tuple(k for j, k in enumerate(MF_KEYS) if m & (1 << j))
+        params = {"self": "Self[MakeFilename]"}
+        for k in ("filename", "dirname", "fileext", "prefix", "suffix"):
+            params[k] = "Str" if k in given else "None"
+        params["overwrite"] = "Bool"
+        bad = (not given) or ("filename" in given and ("prefix" in given or "suffix" in given))
+        name = "MakeFilename.__init__[%s]" % (", ".join(given) or "no argument")
+        if bad:
+            # "It is not allowed to use prefix or suffix if filename argument is given" / "At least one argument must be
+            # present, or LenaTypeError will be raised"
+            cases.append(Contract(MF, "MakeFilename.__init__", name=name, params=params, defaults={"overwrite": False},
+                                  raises={"LenaTypeError": "True"}, raises_frame="havoc"))
+            continue
+        ens = ["self._overwrite == overwrite", "len(self._methods) == %d" % len(given)]
+        for j, k in enumerate(given):
+            ens += ["self._methods[%d][0] == '%s'" % (j, k), "self._methods[%d][1].fmt == %s" % (j, k)]
+        cases.append(Contract(
+            MF, "MakeFilename.__init__", name=name, params=params, defaults={"overwrite": False},
+            post_class=mf_class(given),
+            raises={"LenaTypeError": "False", "LenaValueError": " or ".join("fmt_malformed(%s)" % k for k in given)},
+            ensures=ens, modifies=["self._overwrite", "self._methods"]))
+    # "All these arguments must be strings, otherwise LenaTypeError is raised"
+    for k in ("filename", "suffix"):
+        params = {"self": "Self[MakeFilename]"}
+        for k2 in ("filename", "dirname", "fileext", "prefix", "suffix"):
+            params[k2] = "Int" if k2 == k else "None"
+        params["overwrite"] = "Bool"
+        cases.append(Contract(MF, "MakeFilename.__init__", name="MakeFilename.__init__[%s is a number]" % k, params=params,
+                              defaults={"overwrite": False}, raises={"LenaTypeError": "True"}))
+    ix.add(Contract(MF, "MakeFilename.__init__", props=["C19"], cases=cases))
+    # ---- __call__
+    # Proved for every configuration of one or two keys (with a static context: one key, and the pairs that interact).
+    # The steps of __call__ are sequential and the reference mf_context is their composition, so longer configurations
+    # add no new interaction; they cost minutes of solver time each (3 keys: 75 s, 4 keys: 200 s; proved once during
+    # development: [filename, dirname, fileext] and [prefix, suffix, dirname, fileext]) and are left to the bounded part.
+    cases = []
+    for static in (False, True):
+        for sel in mf_configs():
+            if len(sel) > 2 or (static and len(sel) == 2 and sel not in (("prefix", "suffix"), ("filename", "dirname"))):
+                continue
+            cls = mf_class(sel, static)
+            cases.append(Contract(
+                MF, "MakeFilename.__call__", name="MakeFilename.__call__[%s%s]" % (", ".join(sel), "; static context" if static else ""),
+                dict_model="Val", ghost={"ctx_wf": MF_WF},
+                params={"self": "Self[%s]" % cls, "value": "V"}, result="Any",
+                raises={},
+                ensures=[
+                    # the value's own context object holds what the docstring prescribes (unformattable keys, existing
+                    # names without overwrite: untouched -- including pending prefix / suffix)
+                    "local(context) == mf_context(self, vctx(value))",
+                    "not mf_modified(self, vctx(value)) implies result is value",
+                    "not mf_modified(self, vctx(value)) implies local(context) == vctx(value)",
+                    "mf_modified(self, vctx(value)) implies result[1] is local(context)",
+                    "mf_modified(self, vctx(value)) and v_has_context(value) implies result[0] == vdata(value)",
+                    "mf_modified(self, vctx(value)) and not v_has_context(value) implies result[0] is value"],
+                modifies=[]))
+    ix.add(Contract(MF, "MakeFilename.__call__", props=["C19"], cases=cases))
+    ix.add(Contract(MF, "MakeFilename._set_context", props=["C19"], dict_model="Val",
+                    params={"self": "Self[MakeFilename]", "context": "Dict"}, result=None,
+                    post_class="MakeFilenameCtx",
+                    ensures=["self._context == context", "is_deep_copy(self._context)"],
+                    modifies=["self._context"]))
+    ix.add_class(ClassSpec("MakeFilenameCtx", MF, fields={"_context": "Dict"}, alias_of="MakeFilename"))
+
+
+# --------------------------------------------------------------------------------------------------------- LaTeXToPDF
+LP = "lena/output/latex_to_pdf.py"
+PP = "lena/output/pdf_to_png.py"
+OUT_WF = ["not ('output' in c) or isdict(c['output'])"]
+
+
+def sp_tex_to_pdf(ip, st, pos, kws):
+    """tex_to_pdf(name): name.replace('.tex', '.pdf') for the data part of a flow value (a file name)"""
+    from pyvc.lib import path_key
+    f = ip.reg.ufun("kreplace", ["Key", "Key", "Key"], "Key")
+    return Opaque(T("(%s %s %s %s)" % (f, path_key(ip, st, pos[0], "tex_to_pdf").s, ip.reg.key(".tex").s, ip.reg.key(".pdf").s), "Key"))
+
+
+def sp_mtime_in(ip, st, pos, kws):
+    """mtime_in(fs, p): os.path.getmtime(p) in the file-system state fs"""
+    from pyvc.lib import path_key, mtime_term, _fs_arg
+    from pyvc.sym import Num
+    return Num(mtime_term(ip, _fs_arg(ip, st, pos[0]), path_key(ip, st, pos[1], "mtime_in")))
+
+
+def register_latex_to_pdf(ix):
+    ix.spec_names["tex_to_pdf"] = sp_tex_to_pdf
+    ix.spec_names["mtime_in"] = sp_mtime_in
+    if "LaTeXToPDF" not in ix.classes:
+        ix.add_class(ClassSpec("LaTeXToPDF", LP, fields={"_overwrite": "Bool", "verbose": "Int", "create_command": "Obj",
+                                                         "processes": "Obj"}))
+    if (LP, "LaTeXToPDF.run.pop_returned_processes") not in ix.by_key:
+        ix.add(Contract(LP, "LaTeXToPDF.run.pop_returned_processes", props=[], trusted=True,
+                        params={"processes": "Any", "verbose": "Any"}, generator=True, yields="V",
+                        notes="assumed: polls the pool and yields the (pdf name, context) pairs of finished processes; no "
+                              "file is touched, no context is changed (the pool itself is not modelled)"))
+    # the external command (pdflatex through subprocess.Popen) as an abstract action: it makes the target file
+    ix.add(Contract(LP, "LaTeXToPDF.run.launch", props=[], trusted=True, ghost={"fs": True},
+                    params={"texfile_name": "V", "outfilename": "Str", "output_directory": "Str", "context": "Dict", "pool": "Any"},
+                    result=None, ensures=["fs_exists(outfilename)"], modifies=["fs"],
+                    notes="assumed: the converter command creates / overwrites the pdf (and may write anything else on disk); "
+                          "the process pool that delays the result is not modelled"))
+    TEX = "out_item(_c0, 'filetype') == present('tex')"
+    # "If context.output.changed is not set, then modification times for .tex and .pdf files are compared: if the template
+    # .tex is newer, it is reprocessed"
+    UNCHANGED = ("implies('changed' in _c0['output'], not _c0['output']['changed']) and "
+                 "implies('changed' not in _c0['output'], not (mtime_in(_fs0, texfile_name) > mtime_in(_fs0, data)))")
+    # "If the resulting pdf file exists and context.output.changed is set to False, pdf rendering is not run ...
+    # Set overwrite to True to always recreate pdfs.  All non-existent files are always created."
+    SKIP = "(not self._overwrite and fs_exists_in(_fs0, data) and %s)" % UNCHANGED
+    REST = ["all_keys(lambda k: k == 'output' or item(context, k) == item(_c0, k))",
+            "all_keys(lambda k: k == 'filetype' or k == 'changed' or item(context['output'], k) == item(_c0['output'], k))"]
+    ix.add(Contract(
+        LP, "LaTeXToPDF.run", qualkey="LaTeXToPDF.run#C19", name="LaTeXToPDF.run[decision: which TeX files are converted]",
+        props=["C19"], dict_model="Val",
+        ghost={"fs": True, "ctx_wf": OUT_WF,
+               # the final wait for the process pool (communicate, KeyboardInterrupt) is not interpreted
+               "opaque_regions": [{"start": "for filename in list(self.processes.keys())", "yields": True, "contexts": True,
+                                   "fs": True, "fields": ["processes"], "raises": ["Exception"]}]},
+        params={"self": "Self[LaTeXToPDF]", "flow": "Iter[V]"}, generator=True, yields="Any",
+        requires=["pulled(flow) == 0"],
+        raises={"Exception": "?"},
+        abstract={"data": ("Str", "data == tex_to_pdf(texfile_name)"), "output_directory": ("Str", "True")},
+        loops={1: LoopSpec(invariant=["pulled(flow) == _i"], ghost={"val": "V"},
+                           body_ghost={"_fs0": "fs()", "_c0": "snapshot(vctx(val))"},
+                           body_end=[
+                               # a TeX file that is not skipped: the converter was launched (the pdf exists now) and the
+                               # value is marked changed for everything downstream
+                               "%s implies not %s implies fs_exists(data) and context['output']['changed'] == True and "
+                               "context['output']['filetype'] == 'pdf'" % (TEX, SKIP),
+                               "%s implies not %s implies data == tex_to_pdf(vdata(val))" % (TEX, SKIP)] +
+                           ["%s implies not %s implies %s" % (TEX, SKIP, r) for r in REST]),
+               2: LoopSpec(invariant=["pulled(flow) == _i1 + 1", "fs() == _fs0", "ctx_now(val) == _c0"])},
+        at_yield=[
+            "pulled(flow) == _i1 + 1",
+            # other values pass unchanged, nothing is touched
+            "not in_loop(2) and not %s implies yielded is val and fs() == _fs0 and context == _c0" % TEX,
+            # a TeX file is yielded at once only when it is skipped: no converter runs, nothing on disk changes, the
+            # existing pdf is handed on with changed = False
+            "not in_loop(2) and %s implies %s" % (TEX, SKIP),
+            "not in_loop(2) and %s implies fs() == _fs0 and fs_exists(data)" % TEX,
+            "not in_loop(2) and %s implies yielded[0] == tex_to_pdf(vdata(val)) and yielded[1] is context" % TEX,
+            "not in_loop(2) and %s implies context['output']['changed'] == False and context['output']['filetype'] == 'pdf'" % TEX,
+        ] + ["not in_loop(2) and %s implies %s" % (TEX, r) for r in REST],
+        modifies=["flow", "fs", "self.processes"],
+        notes="the values yielded inside loop #2 / by the final wait are pdfs whose processes have finished (pool: assumed)"))
+
+
+# ----------------------------------------------------------------------------------------------------------- PDFToPNG
+def sp_pdftoppm_target(ip, st, pos, kws):
+    """pdftoppm_target(command): the file `pdftoppm <pdf> <root> -<format> -singlefile` writes: <root>.<format>"""
+    from pyvc.sym import PyListCell
+    v = pos[0]
+    if not (isinstance(v, Ref) and isinstance(st.heap.get(v.cid), PyListCell) and len(st.heap[v.cid].items) == 5):
+        raise ValueError("pdftoppm_target: not the command list of PDFToPNG.run")
+    items = st.heap[v.cid].items
+    root, opt = ip.key_term(items[2]), ip.key_term(items[3])
+    dash = "(kcat %s " % ip.reg.key("-").s
+    if not (opt.s.startswith(dash) and opt.s.endswith(")")):
+        raise ValueError("pdftoppm_target: format option is not '-' + format")
+    fmt = opt.s[len(dash):-1]
+    f = ip.reg.ufun("kcat", ["Key", "Key"], "Key")
+    return Opaque(T("(%s (%s %s %s) %s)" % (f, f, root.s, ip.reg.key(".").s, fmt), "Key"))
+
+
+def register_pdf_to_png(ix):
+    ix.spec_names["pdftoppm_target"] = sp_pdftoppm_target
+    if "PDFToPNG" not in ix.classes:
+        ix.add_class(ClassSpec("PDFToPNG", PP, fields={"_format": "Str", "_timeoutsec": "Int", "_overwrite": "Bool",
+                                                       "_verbose": "Bool"}))
+    # the external command as an abstract action (replaces the weaker assumption of P_sel: "may change anything on disk")
+    replace(ix, Contract(PP, "_run_command", props=[], trusted=True, ghost={"fs": True},
+                         params={"command": "Any", "verbose": "Any", "timeoutsec": "Any"}, result=None,
+                         ensures=["fs_exists(pdftoppm_target(command))"], modifies=["fs"],
+                         notes="assumed: pdftoppm <pdf> <root> -<format> -singlefile creates / overwrites <root>.<format> "
+                               "(and may change anything else on disk)"))
+    PDF = "out_item(_c0, 'filetype') == present('pdf')"
+    PNG = "pdf_stem(vdata(val)) + '.' + self._format"
+    # "If the resulting file already exists and the pdf is unchanged (which is checked through context.output.changed),
+    # conversion is not repeated.  To convert all pdfs to images, set overwrite to True"
+    REDO = "(not fs_exists_in(_fs0, %s) or self._overwrite or _c0['output'].get('changed', False))" % PNG
+    ix.add(Contract(
+        PP, "PDFToPNG.run", qualkey="PDFToPNG.run#C19", name="PDFToPNG.run[decision: which pdfs are converted]",
+        props=["C19"], dict_model="Val", ghost={"fs": True, "ctx_wf": OUT_WF, "paths": True},
+        params={"self": "Self[PDFToPNG]", "flow": "Iter[V]"}, generator=True, yields="Any",
+        requires=["pulled(flow) == 0"],
+        abstract={"data": ("Str", "data == pdf_stem(pdf_name)")},
+        loops={0: LoopSpec(invariant=["pulled(flow) == _i"], body_ghost={"_fs0": "fs()", "_c0": "snapshot(vctx(val))"})},
+        at_yield=[
+            "pulled(flow) == _i + 1",
+            "not %s implies yielded is val and fs() == _fs0 and context == _c0" % PDF,
+            "%s implies yielded[0] == %s and yielded[1] is context" % (PDF, PNG),
+            # after the yield the image named by the value exists: it was there and is kept, or the converter has run
+            "%s implies fs_exists(yielded[0])" % PDF,
+            # a run whose inputs are unchanged launches no converter; output.changed says whether it ran
+            "%s and not %s implies fs() == _fs0 and context['output']['changed'] == False" % (PDF, REDO),
+            "%s and %s implies context['output']['changed'] == True" % (PDF, REDO),
+        ],
+        modifies=["flow", "fs"],
+        notes="the C10 clauses of this function (pass-through, exact context updates) are proved in P_sel"))
+
+
 def replace(ix, c):
     """register c under its key INSTEAD of the contract registered there before (the assumed contracts of C19.py)"""
     old = ix.by_key.get(c.key)
@@ -103,3 +565,7 @@ def replace(ix, c):
 
 def register(ix):
     register_write(ix)
+    register_make_filename_of_write(ix)
+    register_make_filename(ix)
+    register_latex_to_pdf(ix)
+    register_pdf_to_png(ix)
